@@ -7,6 +7,7 @@ CONSTANTS
   PoolN = 6
   Depth3 = TRUE
   M_ShiftOnce = TRUE
+  M_LenOfValue = TRUE
   M_ContainsAnyRunes = TRUE
   UChars = {1, 40, 41, 42, 43, 44, 45, 46, 47, 48, 49, 50}
   UMaxData = 2
